@@ -16,7 +16,7 @@ claim("C02",
       "DESIGN.md 5/C02")
 claim("C06",
       "bounded-exhaustive small-scope enumeration + property-based testing against base-pair run algebra",
-      "All pairs of multisets of <=2 intervals over 0..4 (quick) / <=2 x <=3 over 0..5 (thorough) in four chromosome/gene variants plus generated relation-biased tables up to 40 rows; merge/flatten/subtract/intersection/subdivide/resize/total_range_size compared with an independent run-algebra model. Exhaustive in the stated small scope, sampling beyond.",
+      "All pairs of multisets of <=2 intervals over 0..4 (quick) / <=2 x <=3 over 0..6 (thorough) in four chromosome/gene variants plus generated relation-biased tables up to 40 rows; merge/flatten/subtract/intersection/subdivide/resize/total_range_size compared with an independent run-algebra model. Exhaustive in the stated small scope, sampling beyond.",
       "Trusted: vk/models.py run algebra; tables sorted as tabio.read gives them; chromosome sizes >= ends.",
       "DESIGN.md 5/C06")
 claim("C07",
